@@ -368,12 +368,45 @@ class Model:
                 return m
         return None
 
+    def _folded(self, expr, mod):
+        """value of a closed constant expression (arithmetic on other constants, `bytes(i ^ 0x20 for i in range(256))`, tuples of literals ...) when it is a
+        plain immutable value; None otherwise"""
+        memo = self.__dict__.setdefault("_fold_memo", {})
+        k = id(expr)
+        if k in memo and memo[k][0] is expr:
+            return memo[k][1]
+        v = None
+        try:
+            from sa.consteval import ConstEval, NotConstant
+            ce = self.__dict__.get("_fold_ce")
+            if ce is None:
+                ce = self.__dict__["_fold_ce"] = ConstEval(self)
+            try:
+                r = ce.eval(expr, dict(ce.module_env(mod)) if mod in self.mods else {}, mod)
+            except (NotConstant, RecursionError):
+                r = None
+            plain = (int, str, bytes, bool, float, type(None))
+            if isinstance(r, plain) or (isinstance(r, tuple) and len(r) <= 4096 and all(isinstance(x, plain) for x in r)):
+                if not (isinstance(r, (bytes, str)) and len(r) > 4096):
+                    v = r
+        except Exception:  # noqa
+            v = None
+        memo[k] = (expr, v)
+        return v
+
     def const_value(self, expr, fn: Func):
-        """resolve simple int/str constant expressions incl. class constants"""
+        """resolve constant expressions incl. class and module constants"""
+        v = self._const_value(expr, fn)
+        if v is None and isinstance(expr, (ast.BinOp, ast.Call, ast.Tuple, ast.Subscript, ast.Compare, ast.BoolOp, ast.IfExp)) and not any(
+                isinstance(n, ast.Name) and n.id == "self" for n in ast.walk(expr)):
+            v = self._folded(expr, fn.mod)
+        return v
+
+    def _const_value(self, expr, fn: Func):
         if isinstance(expr, ast.Constant):
             return expr.value
         if isinstance(expr, ast.UnaryOp) and isinstance(expr.op, ast.USub):
-            v = self.const_value(expr.operand, fn)
+            v = self._const_value(expr.operand, fn)
             return -v if isinstance(v, int) else None
         if isinstance(expr, ast.Attribute):
             key = None
@@ -386,15 +419,20 @@ class Model:
                         imp = self.imports[fn.mod].get(expr.value.id)
                         if imp and imp[0] == "module":
                             v = self.mod_consts.get(imp[1], {}).get(expr.attr)
-                            return self.const_value(v, fn) if v is not None else None
+                            if v is None:
+                                return None
+                            r = self._const_value(v, fn)
+                            return r if r is not None else self._folded(v, imp[1])
             if key:
                 v, k = self.find_const(key, expr.attr)
                 if v is not None:
-                    return self.const_value(v, self.funcs.get(f"{k[0]}.{k[1]}.__init__", fn))
+                    r = self._const_value(v, self.funcs.get(f"{k[0]}.{k[1]}.__init__", fn))
+                    return r if r is not None else self._folded(v, k[0])
         if isinstance(expr, ast.Name):
             v = self.mod_consts.get(fn.mod, {}).get(expr.id)
             if v is not None and not isinstance(v, ast.Name):
-                return self.const_value(v, fn)
+                r = self._const_value(v, fn)
+                return r if r is not None else self._folded(v, fn.mod)
         return None
 
 
